@@ -254,3 +254,87 @@ Proof.
   split; [repeat constructor; cbn; intuition congruence|].
   vm_compute. repeat split.
 Qed.
+
+(* ---------- minResources: exactly minAvailable replicas are summed ---------- *)
+Definition spare (t : ptask) : Z :=
+  match pt_min t with Some m => if m =? pt_replicas t then 0 else pt_replicas t - m | None => pt_replicas t end.
+Definition sum_spare (l : list ptask) : Z := fold_right (fun t acc => spare t + acc) 0 l.
+Definition sum_mins (l : list ptask) : Z :=
+  fold_right (fun t acc => (match pt_min t with Some m => m | None => 0 end) + acc) 0 l.
+Definition ptask_ok (t : ptask) : Prop :=
+  0 <= pt_replicas t /\ match pt_min t with Some m => 0 <= m <= pt_replicas t | None => True end.
+
+Lemma spare_nonneg : forall t, ptask_ok t -> 0 <= spare t.
+Proof. intros t [H1 H2]. unfold spare. destruct (pt_min t) as [m|]; auto. destruct (m =? pt_replicas t); lia. Qed.
+
+(* loop 2 (fill up in priority order) *)
+Theorem fill_up_exact : forall l leftcnt,
+  Forall ptask_ok l -> 0 < leftcnt <= sum_spare l -> r_pods (fill_up leftcnt l) = leftcnt.
+Proof.
+  induction l as [|t l IH]; intros leftcnt Hf Hc.
+  - cbn in Hc. lia.
+  - change (sum_spare (t :: l)) with (spare t + sum_spare l) in Hc.
+    inversion Hf as [|? ? Ht Hf']; subst. pose proof (spare_nonneg t Ht) as Hs.
+    cbn [fill_up]. unfold spare in Hc, Hs. destruct Ht as [Hr Hm].
+    destruct (pt_min t) as [m|].
+    + destruct (m =? pt_replicas t) eqn:E.
+      * apply IH; auto; lia.
+      * destruct (pt_replicas t - m <=? leftcnt) eqn:E1.
+        -- apply Z.leb_le in E1. destruct (leftcnt - (pt_replicas t - m) <=? 0) eqn:E2.
+           ++ apply Z.leb_le in E2. rewrite rtimes_pods by lia. lia.
+           ++ apply Z.leb_gt in E2. cbn [radd r_pods]. rewrite rtimes_pods by lia. rewrite IH; auto; lia.
+        -- apply rtimes_pods. lia.
+    + destruct (pt_replicas t <=? leftcnt) eqn:E1.
+      * apply Z.leb_le in E1. destruct (leftcnt - pt_replicas t <=? 0) eqn:E2.
+        -- apply Z.leb_le in E2. rewrite rtimes_pods by lia. lia.
+        -- apply Z.leb_gt in E2. cbn [radd r_pods]. rewrite rtimes_pods by lia. rewrite IH; auto; lia.
+      * apply rtimes_pods. lia.
+Qed.
+
+(* loop 1 stops early only when minAvailable is reached; otherwise it took every task minimum *)
+Lemma own_mins_all : forall l jobmin cnt x c,
+  Forall ptask_ok l -> own_mins jobmin cnt l = (x, c) -> c < jobmin -> c = cnt + sum_mins l.
+Proof.
+  induction l as [|t l IH]; intros jobmin cnt x c Hf H Hlt; cbn in H.
+  - inversion H; subst. cbn. lia.
+  - inversion Hf as [|? ? Ht Hf']; subst. change (sum_mins (t :: l)) with ((match pt_min t with Some m => m | None => 0 end) + sum_mins l).
+    destruct Ht as [Hr Hm]. destruct (pt_min t) as [m|].
+    + destruct (jobmin - cnt <? m) eqn:E1.
+      * assert (E2 : (jobmin <=? cnt + (jobmin - cnt)) = true) by (apply Z.leb_le; lia).
+        rewrite E2 in H. inversion H; subst. lia.
+      * destruct (jobmin <=? cnt + m) eqn:E2.
+        -- inversion H; subst. apply Z.leb_le in E2. lia.
+        -- destruct (own_mins jobmin (cnt + m) l) as [x1 c1] eqn:Eo. inversion H; subst.
+           rewrite (IH _ _ _ _ Hf' Eo Hlt). lia.
+    + rewrite (IH _ _ _ _ Hf' H Hlt). lia.
+Qed.
+
+Lemma sum_split : forall l, Forall ptask_ok l -> sum_replicas l = sum_mins l + sum_spare l.
+Proof.
+  induction l as [|t l IH]; intros Hf; [reflexivity|]. inversion Hf as [|? ? [Hr Hm] Hf']; subst.
+  specialize (IH Hf').
+  change (sum_replicas (t :: l)) with (pt_replicas t + sum_replicas l).
+  change (sum_mins (t :: l)) with ((match pt_min t with Some m => m | None => 0 end) + sum_mins l).
+  change (sum_spare (t :: l)) with (spare t + sum_spare l). unfold spare.
+  destruct (pt_min t) as [m|]; [|lia]. destruct (m =? pt_replicas t) eqn:E; [apply Z.eqb_eq in E|]; lia.
+Qed.
+
+(* calcPGMinResources sums exactly minAvailable replicas: both branches, whatever
+   order the tasks are visited in (so also for any order of equal priorities) *)
+Theorem calc_min_resources_exact : forall l jobmin tm,
+  Forall ptask_ok l -> 0 <= jobmin <= sum_replicas l ->
+  r_pods (calc_min_resources_sorted jobmin l tm) = jobmin.
+Proof.
+  intros l jobmin tm Hf Hj. unfold calc_min_resources_sorted.
+  destruct (jobmin <? tm).
+  - apply first_count_exact; auto. eapply Forall_impl; [|exact Hf]. intros t [H _]. exact H.
+  - destruct (own_mins jobmin 0 l) as [x c] eqn:Eo.
+    assert (Hf2 : Forall (fun t => match pt_min t with Some m => 0 <= m | None => True end) l).
+    { eapply Forall_impl; [|exact Hf]. intros t [_ H]. destruct (pt_min t); auto. lia. }
+    destruct (own_mins_count l jobmin 0 x c Hf2 ltac:(lia) Eo) as [Hc Hx].
+    destruct (jobmin <=? c) eqn:E.
+    + apply Z.leb_le in E. lia.
+    + apply Z.leb_gt in E. cbn [radd r_pods].
+      pose proof (own_mins_all l jobmin 0 x c Hf Eo E) as Hall. pose proof (sum_split l Hf) as Hs.
+      rewrite fill_up_exact; auto; lia.
+Qed.
